@@ -402,7 +402,8 @@ def run_family(tier, run):
 def main(tier):
     run = runner.Run(PID, tier, "exploration")
     runner.in_child(etgen.selftest)
-    for pb in var_mapping_problems():
+    for pb in runner.guard(run, 'C11:var-mapping:raised',
+                           var_mapping_problems, default=[]):
         run.violation(f"C11:var-mapping:{pb[0]}:{pb[1]}", str(pb), {})
     ndirs, reads, jn, jt = run_family(tier, run)
     hs = []
